@@ -1122,6 +1122,10 @@ theorem pre_stepCore {s : S} (h : Pre s) (op : Op) : Pre (stepCore s op) := by
   | cast a v =>
     simp only [stepCore]
     exact pre_ext h _ (Ext.modify s.actors a v)
+  | handleAt a act d =>
+    simp only [stepCore]
+    have h1 := pre_handle h a act
+    exact ⟨fun p c hc => callPre_mono (Nat.le_add_right _ _) (h1.pre p c hc), h1.loc, h1.mb, h1.nd⟩
   | fail a =>
     simp only [stepCore]
     cases s.actors[a]? with
@@ -1554,6 +1558,7 @@ theorem own_stepCore {s : S} (hp : Pre s) (h : Own s) (op : Op) : Own (stepCore 
       · exact h
   | supexit u => exact own_supExit h u
   | cast a v => exact own_calls_eq h rfl
+  | handleAt a act d => exact own_calls_eq (own_handle hp h a act) rfl
   | fail a =>
     simp only [stepCore]
     cases s.actors[a]? with
@@ -1947,6 +1952,7 @@ theorem wire_stepCore {s : S} (hp : Pre s) (h : Wire s) (op : Op) : Wire (stepCo
       · exact wire_killChildren (wire_sweep h _) u
       · exact h
   | cast a v => exact wire_frame h rfl rfl
+  | handleAt a act d => exact wire_frame (wire_handle hp h a act) rfl rfl
   | fail a =>
     simp only [stepCore]
     cases s.actors[a]? with
